@@ -218,7 +218,10 @@ func C17(tier string) int {
 		}
 		for ci, ch := range chains {
 			for _, lim := range limits {
-				for _, f := range []ap.FilterMode{ap.FilterAll, ap.FilterFirst, ap.FilterNone} {
+				for _, f := range []ap.FilterMode{ap.FilterAll, ap.FilterFirst, ap.FilterNone, ap.FilterLastInPlace, ap.FilterReverseInPlace} {
+					if (f == ap.FilterLastInPlace || f == ap.FilterReverseInPlace) && (len(addr) < 2 || (!res.Thorough() && ci%4 != 0)) {
+						continue // the in-place filters differ from the others only with two or more collections
+					}
 					// the filter only matters when forwarding can happen; histories vary with (ai+ci)
 					hs := histories
 					if !res.Thorough() {
@@ -234,7 +237,7 @@ func C17(tier string) int {
 			}
 		}
 	}
-	res.Rule = fmt.Sprintf("activities whose to/cc/audience hold every sequence of <= %d entries over {owned Collection, owned OrderedCollection, foreign collection, owned non-collection, remote actor}; reply chains of depth 0..%d through inReplyTo/object/target/tag with every embedded / dereferenced-IRI form per link, the final value owned or not, plus chains broken by a missing or unknown-type document, and chains ending in a Link-derived value (Mention named by href only; Link whose id and href disagree, the owned one being the id or only the href); depth limit %v; filter {all, first only, none}; delivery histories {A, AA, AB, BAA, ABA} over two local inboxes; %d histories, each a sequence of real requests on one application state; oracle: forwarded (once, on the first delivery) iff an owned (Ordered)Collection is addressed and an owned value lies within the limit; recipients are the members of exactly the collections the filter returned; payload equals the received body; the activity is recorded exactly once; states = distinct application states reached, transitions = requests", maxAddr, maxDepth, limits, len(cases))
+	res.Rule = fmt.Sprintf("activities whose to/cc/audience hold every sequence of <= %d entries over {owned Collection, owned OrderedCollection, foreign collection, owned non-collection, remote actor}; reply chains of depth 0..%d through inReplyTo/object/target/tag with every embedded / dereferenced-IRI form per link, the final value owned or not, plus chains broken by a missing or unknown-type document, and chains ending in a Link-derived value (Mention named by href only; Link whose id and href disagree, the owned one being the id or only the href); depth limit %v; filter {all, first only, none, last only (filtering the slice it is handed in place), all (reversing it in place)}; delivery histories {A, AA, AB, BAA, ABA} over two local inboxes; %d histories, each a sequence of real requests on one application state; oracle: forwarded (once, on the first delivery) iff an owned (Ordered)Collection is addressed and an owned value lies within the limit; recipients are the members of exactly the collections the filter returned; payload equals the received body; the activity is recorded exactly once; states = distinct application states reached, transitions = requests", maxAddr, maxDepth, limits, len(cases))
 	res.Assumptions = []string{"locks are counted, not blocking (a collection addressed twice is C09's known finding)", "a dereferenced document that is not JSON aborts the search with an error and is left to C11"}
 	var mu sync.Mutex
 	states := map[uint64]struct{}{}
@@ -280,6 +283,12 @@ func C17(tier string) int {
 				if len(ownedColls) > 0 {
 					filtered = ownedColls[:1]
 				}
+			case ap.FilterLastInPlace:
+				if len(ownedColls) > 0 {
+					filtered = ownedColls[len(ownedColls)-1:]
+				}
+			case ap.FilterReverseInPlace:
+				filtered = ownedColls
 			}
 			wantMembers := map[string]bool{}
 			for _, col := range filtered {
